@@ -22,6 +22,8 @@ type concMember struct {
 	Text   string
 	Target string // what is assigned
 	Val    int64
+	// Compound: `target += ev(id, Val)` on a local that holds -1 before the block; every pass of the block adds Val
+	Compound bool
 }
 
 type concRule struct {
@@ -106,6 +108,11 @@ func RunC18(k *fw.Case) {
 					m.Text = fmt.Sprintf("ghost%d.F = fl(%d)", j, m.ID)
 				} else if m.Fail {
 					m.Text = fmt.Sprintf("%s = 1 / fl(%d)", m.Target, m.ID)
+				} else if strings.HasPrefix(m.Target, "px") && r.Intn(2) == 0 {
+					// a compound update of a local that exists before the block (it holds -1)
+					m.Text = fmt.Sprintf("%s += ev(%d, %d)", m.Target, m.ID, m.Val)
+					m.Compound = true
+					fmt.Fprintf(&after, "  rv(%d, %s)\n", m.ID, m.Target)
 				} else {
 					m.Text = fmt.Sprintf("%s = ev(%d, %d)", m.Target, m.ID, m.Val)
 					if r.Intn(2) == 0 {
@@ -303,6 +310,9 @@ func runConcOnce(k *fw.Case, r *rand.Rand, rb *builder.RuleBuilder, obs *trace.O
 			if !m.Fail && m.Target != "" && !cr.anyFail {
 				got, ok := vals.get(int64(m.ID))
 				want := m.Val
+				if m.Compound {
+					want = -1 + m.Val*int64(cr.reps)
+				}
 				if !ok {
 					k.Violate("visibility/"+m.Cat, fmt.Sprintf("the value assigned by `%s` was not read after the block", m.Text), det(cr))
 				} else if fmt.Sprint(got) != fmt.Sprint(want) {
@@ -323,8 +333,12 @@ func runConcOnce(k *fw.Case, r *rand.Rand, rb *builder.RuleBuilder, obs *trace.O
 						}
 					}
 				}
-				if got, ok := vals.get(int64(cr.second)); !ok || fmt.Sprint(got) != fmt.Sprint(src.Val) {
-					k.Violate("second-block/visibility", fmt.Sprintf("the second of two adjacent conc blocks read %s = %v (present=%v), the first block assigned %d", src.Target, got, ok, src.Val), det(cr))
+				srcVal := src.Val
+				if src.Compound {
+					srcVal = src.Val - 1 // -1 + Val: the block runs once here
+				}
+				if got, ok := vals.get(int64(cr.second)); !ok || fmt.Sprint(got) != fmt.Sprint(srcVal) {
+					k.Violate("second-block/visibility", fmt.Sprintf("the second of two adjacent conc blocks read %s = %v (present=%v), the first block left %d there", src.Target, got, ok, srcVal), det(cr))
 				}
 			}
 		}
